@@ -421,7 +421,8 @@ def routes(shape):
     res.append(("in-keyed-literal", "", shape.php_setup("$a") + " $w = ['z' => 0, 'k' => $a];",
                 shape.model_setup("a") + ["SLit \"w\" (LAssoc [(\"z\", LInt 0)])", "SElemStore \"w\" (KS \"k\") \"a\""],
                 var_side("a"), elem_side("w", "k"), False, ("copy", "orig"), None))
-    res.append(("in-keyed-literal-first", "", shape.php_setup("$a") + " $w = ['k' => $a, 'z' => 0];",
+    if not QUICK:
+        res.append(("in-keyed-literal-first", "", shape.php_setup("$a") + " $w = ['k' => $a, 'z' => 0];",
                 shape.model_setup("a") + ["SLit \"w\" (LAssoc [])", "SElemStore \"w\" (KS \"k\") \"a\"", "SSetInt \"zero\" 0", "SElemStore \"w\" (KS \"z\") \"zero\""],
                 var_side("a"), elem_side("w", "k"), False, ("copy", "orig"), None))
     if shape.literal_only:
